@@ -20,6 +20,15 @@ func Root() string {
 	return "/verif"
 }
 
+// Out is where evidence and replay artefacts are written: Root(), unless VERIF_OUT redirects them (used when a
+// deliberately broken tree is being tried, so that the committed evidence is not overwritten).
+func Out() string {
+	if r := os.Getenv("VERIF_OUT"); r != "" {
+		return r
+	}
+	return Root()
+}
+
 // Seed returns VERIF_SEED (0 if unset).
 func Seed() int {
 	n, _ := strconv.Atoi(os.Getenv("VERIF_SEED"))
@@ -42,7 +51,7 @@ type Evidence struct {
 func (e *Evidence) Write(start time.Time) error {
 	e.WallS = time.Since(start).Seconds()
 	e.Seed = Seed()
-	dir := filepath.Join(Root(), "evidence")
+	dir := filepath.Join(Out(), "evidence")
 	if err := os.MkdirAll(dir, 0755); err != nil {
 		return err
 	}
@@ -57,7 +66,7 @@ func (e *Evidence) Write(start time.Time) error {
 func Replay(prop string, v interface{}) string {
 	b, _ := json.MarshalIndent(v, "", " ")
 	h := sha256.Sum256(b)
-	dir := filepath.Join(Root(), "replays", prop)
+	dir := filepath.Join(Out(), "replays", prop)
 	_ = os.MkdirAll(dir, 0755)
 	p := filepath.Join(dir, hex.EncodeToString(h[:6])+".json")
 	_ = os.WriteFile(p, append(b, '\n'), 0644)
